@@ -552,6 +552,7 @@ def _isinstance(it):
     def f(v, t):
         if isinstance(t, tuple):
             return any(f(v, q) for q in t)
+        t = {_tuple: tuple, _list: list, _dict: dict}.get(t, t) if callable(t) else t
         if t is TY_TENSOR:
             return isinstance(v, STensor) and v.meta.get('kind', 'torch') == 'torch'
         if t is TY_NDARRAY:
